@@ -223,6 +223,7 @@ func reorder(r *gen.Rand, ops []opIn) []opIn {
 func generate(o gen.Opts) []gen.Case {
 	r := gen.NewRand(o.Seed)
 	rSeq, rPre, rArb, rConc, rPerm, rComm := r.Fork(), r.Fork(), r.Fork(), r.Fork(), r.Fork(), r.Fork()
+	rGate := r.Fork()
 	var cases []gen.Case
 	nSeq := o.N * 40 / 100
 	nPre := o.N * 15 / 100
@@ -315,6 +316,12 @@ func generate(o gen.Opts) []gen.Case {
 		ops := genOps(rComm, leaves, rComm.Range(2, 10*long), false, false)
 		cases = append(cases, runCase("comm", input{Tree: t, Ops: ops, Ops2: reorder(rComm, ops)}))
 	}
+	// pre-emption inside a merge (gate.go): each parked case costs one wait of gateWait()
+	nGate := o.N / 75
+	if nGate < 24 {
+		nGate = 24
+	}
+	cases = append(cases, generateGate(rGate, nGate)...)
 	// small inputs first: the driver reports the first failing case, so this stands in for
 	// shrinking (the monitor is evaluated in Coq, after the run)
 	sort.SliceStable(cases, func(i, j int) bool { return sizeOf(cases[i]) < sizeOf(cases[j]) })
